@@ -12,6 +12,7 @@ import (
 	"os"
 	"sort"
 	"strings"
+	"sync"
 
 	"github.com/drand/drand/v2/common"
 	"github.com/drand/drand/v2/common/log"
@@ -721,17 +722,11 @@ func RunStore(outDir string, seed int64, tier string) error {
 
 	var lines, descr []string
 	seen := map[string]bool{}
-	for _, j := range jobs {
-		st, cleanup, err := j.cfg.open(root)
-		if err != nil {
-			return fmt.Errorf("opening %s: %w", j.cfg.name, err)
-		}
-		outs := runSeq(j.cfg.ctx(), st, j.ops)
-		cleanup()
+	record := func(cfg backendCfg, ops []sop, outs []sout, from string, extra [][2]string) {
 		rep.Evaluations++
-		rep.Count(j.cfg.name + "/" + j.from)
+		rep.Count(cfg.name + "/" + from)
 		nontrivial, hasMut := false, false
-		for i, o := range j.ops {
+		for i, o := range ops {
 			rep.Count("op/" + o.kind)
 			if i < len(outs) {
 				rep.Count("out/" + outs[i].kind)
@@ -743,36 +738,80 @@ func RunStore(outDir string, seed int64, tier string) error {
 				hasMut = true
 			}
 		}
-		k := seqKey(j.cfg, j.ops)
+		k := seqKey(cfg, ops) + "|" + from
 		if !seen[k] {
 			seen[k] = true
 			if nontrivial && hasMut {
 				rep.DistinctNontrivial++
 			}
 		}
-		short := seqShort(j.ops, outs)
+		short := seqShort(ops, outs)
 		failed := map[string]bool{}
-		monitorSeq(j.cfg, j.ops, outs, func(class, what string) {
+		fail := func(class, what string) {
 			if !failed[class] {
 				failed[class] = true
-				rep.Fail(class, what, map[string]interface{}{"backend": j.cfg.name, "from": j.from, "sequence": short})
+				rep.Fail(class, what, map[string]interface{}{"backend": cfg.name, "from": from, "sequence": short})
 			}
-		})
-		opsC := make([]string, len(j.ops))
-		for i, o := range j.ops {
+		}
+		for _, f := range extra {
+			fail(f[0], f[1])
+		}
+		monitorSeq(cfg, ops, outs, fail)
+		opsC := make([]string, len(ops))
+		for i, o := range ops {
 			opsC[i] = o.coq()
 		}
 		outsC := make([]string, len(outs))
 		for i, o := range outs {
 			outsC[i] = o.coq()
 		}
-		lines = append(lines, fmt.Sprintf("SCase %s %s %s", j.cfg.coq, emit.List(opsC), emit.List(outsC)))
-		descr = append(descr, j.cfg.name+" ("+j.from+"): "+short)
-		if j.from != "exhaustive" || rep.Evaluations%97 == 0 {
-			rep.Sample(j.cfg.name+": "+short, 8)
+		lines = append(lines, fmt.Sprintf("SCase %s %s %s", cfg.coq, emit.List(opsC), emit.List(outsC)))
+		descr = append(descr, cfg.name+" ("+from+"): "+short)
+		if from != "exhaustive" || rep.Evaluations%97 == 0 {
+			rep.Sample(cfg.name+": "+short, 8)
 		}
 	}
-	rep.Rule = "one evaluation = one operation sequence on a fresh real back-end (untrimmed bolt, trimmed bolt with and without previous-required context, memdb 10 and 12), result observed after every operation; corpus of known witnesses, all put/del sequences up to a depth over rounds {1,2,4} followed by a full read probe, and random sequences over four round alphabets (gaps, byte-boundary rounds up to 2^64-1, re-puts with new data, deletions, seeks to absent rounds, cursor sessions; mutation inside sessions for memdb); distinct = distinct (back-end, sequence); non-trivial = at least one mutation and one read that returned a beacon"
+	// reopen histories on the bolt back-ends (the model continues across the reopen); the
+	// contended ones wait lockHold in real time, so they run side by side with the rest
+	var reopened []reopenRun
+	var rmu sync.Mutex
+	var rwg sync.WaitGroup
+	for _, cfg := range storeBackends {
+		if cfg.kind == "mem" {
+			continue
+		}
+		for _, contended := range []bool{false, true} {
+			rwg.Add(1)
+			go func(cfg backendCfg, contended bool) {
+				defer rwg.Done()
+				r := reopenHistory(cfg, root, contended)
+				rmu.Lock()
+				reopened = append(reopened, r)
+				rmu.Unlock()
+			}(cfg, contended)
+		}
+	}
+	for _, j := range jobs {
+		st, cleanup, err := j.cfg.open(root)
+		if err != nil {
+			return fmt.Errorf("opening %s: %w", j.cfg.name, err)
+		}
+		outs := runSeq(j.cfg.ctx(), st, j.ops)
+		cleanup()
+		record(j.cfg, j.ops, outs, j.from, nil)
+	}
+	rwg.Wait()
+	sort.Slice(reopened, func(i, j int) bool {
+		return reopened[i].cfg.name+reopened[i].from < reopened[j].cfg.name+reopened[j].from
+	})
+	for _, r := range reopened {
+		if r.err != nil {
+			rep.Fail("reopen-failed", fmt.Sprintf("%s (%s): the store could not be closed and reopened: %v", r.cfg.name, r.from, r.err), map[string]interface{}{"backend": r.cfg.name, "from": r.from})
+			continue
+		}
+		record(r.cfg, r.ops, r.outs, r.from, r.fails)
+	}
+	rep.Rule = "one evaluation = one operation sequence on a fresh real back-end (untrimmed bolt, trimmed bolt with and without previous-required context, memdb 10 and 12), result observed after every operation; corpus of known witnesses, all put/del sequences up to a depth over rounds {1,2,4} followed by a full read probe, and random sequences over four round alphabets (gaps, byte-boundary rounds up to 2^64-1, re-puts with new data, deletions, seeks to absent rounds, cursor sessions; mutation inside sessions for memdb), and close/reopen histories on the bolt files (reopened through the daemon's format probe, once while another handle still holds the file lock for 1.5 s); distinct = distinct (back-end, sequence); non-trivial = at least one mutation and one read that returned a beacon"
 	if err := rep.Shard(outDir, "cases_store", []string{"From DV Require Import Model.Backends Corr.StoreCorr."}, "scase", "mismatches", lines, descr, 200); err != nil {
 		return err
 	}
